@@ -1,9 +1,63 @@
-(** C05 - bounded queues: property theorems (statements only; proofs live in Proof/). *)
+(** C05 - bounded queues: property theorems (statements only; proofs live in Proof/VyukovInv.v).
+    [VyukovDefs] is the step-level model of vyukov_bounded_queue tied to the code by trace correspondence.
+    [Bnd st]: fewer than 2^62 values enqueued so far (no counter wrap). *)
 From Coq Require Import NArith List.
-From XV Require Import Base.Word Conc.Lts Model.VyukovDefs.
+From XV Require Import Base.Word Conc.Lts Conc.Ev Model.VyukovDefs Proof.VyukovInv.
+Import ListNotations.
 Local Open Scope N_scope.
 
-(** initially the ring is empty and every cell waits for the position with its own index *)
-Theorem C05_vyukov_init : forall i : N, enq init = 0 /\ deq init = 0 /\ cseq init i = i.
-Proof. intros; repeat split; reflexivity. Qed.
-Print Assumptions C05_vyukov_init.
+(** ring bounds: never more than [cap] elements; tickets count the linearized operations *)
+Theorem C05_vyukov_bounds : forall cap k, 1 <= k -> k <= 30 -> cap = 2 ^ k ->
+  forall st, reach init (step cap) st -> Bnd st ->
+  deq st <= enq st /\ enq st <= deq st + cap /\
+  N.of_nat (length (g_in st)) = enq st /\ N.of_nat (length (g_out st)) = deq st.
+Proof. exact vyu_bounds. Qed.
+Print Assumptions C05_vyukov_bounds.
+
+(** MAIN RESULT (FIFO, no loss, no duplication, no invention): for any number of threads mixing strong
+    and weak operations, the values dequeued so far are exactly the first [deq] values enqueued *)
+Theorem C05_vyukov_fifo : forall cap k, 1 <= k -> k <= 30 -> cap = 2 ^ k ->
+  forall st, reach init (step cap) st -> Bnd st ->
+  g_out st = firstn (N.to_nat (deq st)) (g_in st).
+Proof. exact vyu_fifo_prefix. Qed.
+Print Assumptions C05_vyukov_fifo.
+
+(** the value a pop returns is the one enqueued with its ticket *)
+Theorem C05_vyukov_pop_value : forall cap k, 1 <= k -> k <= 30 -> cap = 2 ^ k ->
+  forall st t p, reach init (step cap) st -> Bnd st -> th st t = Q6 p ->
+  cval st (cell cap p) = nth (N.to_nat p) (g_in st) 0 /\
+  nth (N.to_nat p) (g_out st) 0 = nth (N.to_nat p) (g_in st) 0.
+Proof. exact vyu_pop_returns_ticket_value. Qed.
+Print Assumptions C05_vyukov_pop_value.
+
+(** a strong try_push fails only at an instant at which the queue is full ... *)
+Theorem C05_vyukov_full_justified : forall cap k, 1 <= k -> k <= 30 -> cap = 2 ^ k ->
+  forall st t st' es, reach init (step cap) st -> Bnd st ->
+  step cap st (Step t) = Some (st', es) -> In (ERet t [0]) es -> enq st = deq st + cap.
+Proof. exact vyu_full_step. Qed.
+Print Assumptions C05_vyukov_full_justified.
+
+(** ... and a strong try_pop fails only at an instant at which it is empty *)
+Theorem C05_vyukov_empty_justified : forall cap k, 1 <= k -> k <= 30 -> cap = 2 ^ k ->
+  forall st t st' es, reach init (step cap) st -> Bnd st ->
+  step cap st (Step t) = Some (st', es) -> In (ERet t [3]) es -> deq st = enq st.
+Proof. exact vyu_empty_step. Qed.
+Print Assumptions C05_vyukov_empty_justified.
+
+(** a weak operation that fails changes nothing (it never corrupts the queue for later operations) *)
+Theorem C05_vyukov_weak_fail_noop : forall cap st t st' es,
+  step cap st (Step t) = Some (st', es) -> In (ERet t [2]) es ->
+  enq st' = enq st /\ deq st' = deq st /\ cseq st' = cseq st /\ cval st' = cval st /\
+  g_in st' = g_in st /\ g_out st' = g_out st /\ th st' = upd (th st) t Idle /\
+  ((exists v pos, th st t = P2 true v pos /\ cseq st (cell cap pos) < pos) \/
+   (exists pos, th st t = Q2 true pos /\ cseq st (cell cap pos) < wadd 64 pos 1)).
+Proof. exact vyu_weak_fail_noop. Qed.
+Print Assumptions C05_vyukov_weak_fail_noop.
+
+(** non-vacuity: a run with two threads reaches a state with a popper holding ticket 0 *)
+Example C05_nonvacuous :
+  let acts := [Start 1%nat (OPush false 7); Step 1%nat; Step 1%nat; Step 1%nat; Step 1%nat; Step 1%nat;
+               Start 2%nat (OPop false); Step 2%nat; Step 2%nat; Step 2%nat; Step 2%nat] in
+  let st := fst (fst (run (step 2) init acts)) in
+  th st 2%nat = Q6 0 /\ g_in st = [7] /\ g_out st = [7].
+Proof. vm_compute. repeat split; reflexivity. Qed.
